@@ -9,6 +9,7 @@ import (
 	"fmt"
 	"net"
 	"sync"
+	"sync/atomic"
 	"time"
 
 	comm "github.com/IBM/TSS/net"
@@ -50,7 +51,7 @@ func waitFor(max time.Duration, cond func() bool) bool {
 }
 
 func unitC17(e common.Env, p *common.Part) {
-	p.Rule = "3..5 real endpoints on 127.0.0.1; payload lengths {0,1,31,32,33,255,256,65535,65536,1 MiB, limit-1, limit, limit+1}; type/topic forms (types 1,2 with a 32-byte topic; types 0,3,9 without); 1..8 concurrent sending goroutines per connection; faults, each in turn: a peer that never listened, a listener closed mid-run, a peer that accepts but never reads, an authenticated client writing a truncated frame / an oversize length / garbage; oracle: per (connection, goroutine) sequence equality and multiset equality on ids and SHA-256 of type/topic/payload at the receiver, oversize never delivered, process alive, messages between healthy peers all received; distinct key = (scenario, size, form, senders, fault); non-trivial when >=2 concurrent senders, a boundary size or a fault is involved"
+	p.Rule = "3..5 real endpoints on 127.0.0.1; payload lengths {0,1,31,32,33,255,256,65535,65536,1 MiB, limit-1, limit, limit+1}; type/topic forms (types 1,2 with a 32-byte topic; types 0,3,9 without); 1..8 concurrent sending goroutines per connection; 480 (thorough 3000) fresh peer handles whose first Send is issued by 8 goroutines released together; faults, each in turn: a peer that never listened, a listener closed mid-run, a peer that accepts but never reads, an authenticated client writing a truncated frame / an oversize length / garbage; oracle: per (connection, goroutine) sequence equality and multiset equality on ids and SHA-256 of type/topic/payload at the receiver, oversize never delivered, process alive, messages between healthy peers all received; distinct key = (scenario, size, form, senders, fault); non-trivial when >=2 concurrent senders, a boundary size or a fault is involved"
 	p.Assumptions = append(p.Assumptions, "the 10 s enqueue stall towards a dead peer is reported, not judged; 'all received' is bounded by message count with a 60 s watchdog; the id of a message rides in its topic (types 1,2) or the payload head")
 	type scen struct {
 		name string
@@ -160,6 +161,82 @@ func unitC17(e common.Env, p *common.Part) {
 		{"1 MiB and 3 MiB payloads, 2 senders", func() (string, string) { return scenA([]int{1 << 20, 3 << 20, 17}, 2, 6, true) }},
 		{"limit-1 and limit payloads", func() (string, string) { return scenA([]int{frameLimit - 1, frameLimit}, 1, 2, true) }},
 	}
+	// --- scenario A': the FIRST Send on a fresh peer handle is issued by 8 goroutines at the same instant (they spin on a gate), for
+	// many fresh handles: whatever the handle sets up on first use (sender goroutine, connection, handshake) is set up once
+	scens = append(scens, scen{"first Send on a fresh handle issued by 8 goroutines at the same instant", func() (string, string) {
+		env, err := newNetEnv(ids, doms)
+		if err != nil {
+			return "", ""
+		}
+		defer env.stopAll()
+		env.listen(1, true)
+		attempts, G, perG := e.Pick(480, 3000), 8, 10
+		rn := env.nodes[1]
+		checked := 0
+		for a0 := 0; a0 < attempts; a0 += 20 {
+			for a := a0; a < a0+20 && a < attempts; a++ {
+				cl := env.client(1, "d", honestAuth(env.nodes[3].ident, "d"))
+				var gate int32
+				var wg sync.WaitGroup
+				for g := 0; g < G; g++ {
+					g := g
+					wg.Add(1)
+					go func() {
+						defer wg.Done()
+						for atomic.LoadInt32(&gate) == 0 {
+						}
+						for sq := 0; sq < perG; sq++ {
+							data, topic := mkPayload(40+(g*7+sq*13)%900, uint32(a), uint32(g), uint32(sq))
+							cl.Send(1, topic, data, 1)
+						}
+					}()
+				}
+				time.Sleep(200 * time.Microsecond)
+				atomic.StoreInt32(&gate, 1)
+				wg.Wait()
+			}
+			want := min(a0+20, attempts) * G * perG
+			if !waitFor(30*time.Second, func() bool { return len(rn.received()) >= want }) {
+				// which handle lost messages
+				per := map[uint32]int{}
+				for _, m := range rn.received() {
+					if len(m.Topic) == 32 {
+						per[binary.BigEndian.Uint32(m.Topic[0:])]++
+					}
+				}
+				for a := a0; a < a0+20 && a < attempts; a++ {
+					if per[uint32(a)] != G*perG {
+						return "missing/first-send-by-several-goroutines", fmt.Sprintf("fresh handle #%d: %d goroutines issued its first Send together and sent %d messages in all, %d arrived", a, G, G*perG, per[uint32(a)])
+					}
+				}
+				return "missing/first-send-by-several-goroutines", fmt.Sprintf("%d of %d messages arrived", len(rn.received()), want)
+			}
+		}
+		time.Sleep(30 * time.Millisecond)
+		next := map[[2]uint32]uint32{}
+		for _, m := range rn.received() {
+			if len(m.Topic) != 32 || m.From != 3 || m.Type != 1 {
+				return "modified/first-send-by-several-goroutines", fmt.Sprintf("a message arrived with type %d, a %d-byte topic, attributed to %d", m.Type, len(m.Topic), m.From)
+			}
+			a, g, sq, size := binary.BigEndian.Uint32(m.Topic[0:]), binary.BigEndian.Uint32(m.Topic[4:]), binary.BigEndian.Uint32(m.Topic[8:]), binary.BigEndian.Uint32(m.Topic[12:])
+			wantData, _ := mkPayload(int(size), a, g, sq)
+			if int(size) > 1000 || !bytes.Equal(wantData, m.Data) {
+				return "modified/first-send-by-several-goroutines", fmt.Sprintf("fresh handle #%d: message %d of goroutine %d arrived with another payload than was sent", a, sq, g)
+			}
+			k := [2]uint32{a, g}
+			if sq != next[k] {
+				return "reordered-or-duplicated/first-send-by-several-goroutines", fmt.Sprintf("fresh handle #%d: goroutine %d's message %d arrived where its message %d was due", a, g, sq, next[k])
+			}
+			next[k]++
+			checked++
+		}
+		if checked != attempts*G*perG {
+			return "duplicated/first-send-by-several-goroutines", fmt.Sprintf("%d messages arrived, %d were sent", checked, attempts*G*perG)
+		}
+		p.Count("messages_checked", int64(checked))
+		p.Count("fresh_handles_first_used_by_8_goroutines", int64(attempts))
+		return "", ""
+	}})
 	// --- scenario B: a frame announcing more than the limit is refused, and the process survives
 	scens = append(scens, scen{"limit+1 refused", func() (string, string) {
 		env, err := newNetEnv(ids, doms)
